@@ -55,7 +55,7 @@ def make_plan(rng, tier, index):
 
 
 def normalise(plan):
-    return plan
+    return trainplan.sanitize(plan)
 
 
 def is_target(name):
